@@ -33,6 +33,9 @@ pub enum Variant
     Erring,
     /// Ordinary system that never takes its system event (payload stays in the data entity).
     NoTake,
+    /// Exclusive system whose body flushes the world's command queue (`World::flush`, as any `World::syscall`,
+    /// `World::react`, `World::broadcast` ... would) before it reads its event.
+    ExclusiveFlush,
 }
 
 /// One reaction trigger.
